@@ -12,7 +12,16 @@ pub fn check_byte_exact(ctx: &Ctx, c: &SignCase) -> Verdict {
     let msg = c.msg.bytes();
     let m = compat_model(ctx, c.hash);
     let blob = hss::private_key_blob(&c.levels, c.counter, &seed);
-    let (o, _) = libapi::sign(c.hash, &msg, &blob, Cb::Accept, None);
+    // every way in must release the same bytes: the callback API (with and without aux data), the
+    // in-memory key through try_sign and through try_sign_with_aux (with and without aux data)
+    let entry = (c.counter as usize + msg.len() + c.levels.len() + c.hash.index()) % 6;
+    let o = match entry {
+        0 | 1 => libapi::sign(c.hash, &msg, &blob, Cb::Accept, None).0,
+        2 => libapi::sign(c.hash, &msg, &blob, Cb::Accept, Some(&mut libapi::AuxBuf::new(vec![0u8; 1500]))).0,
+        3 => libapi::sign_via_key(c.hash, &msg, &blob, libapi::KeyEntry::TrySign, None).0,
+        4 => libapi::sign_via_key(c.hash, &msg, &blob, libapi::KeyEntry::TrySignWithAuxNone, None).0,
+        _ => libapi::sign_via_key(c.hash, &msg, &blob, libapi::KeyEntry::TrySign, Some(&mut libapi::AuxBuf::new(vec![0u8; 1500]))).0,
+    };
     let sig = match o {
         Out::Ok(s) => s,
         o => {
